@@ -391,7 +391,9 @@ theorem attr_reads {decl : Nat → List AttrDecl} {at_ : Pyx.Meta.Attrs} {sch : 
    fun _ _ hr hform hpk => read_ref hk kinds R A hx hkin hfa hr hform hpk fuel⟩
 
 /-- writes: `x.attr = v` on a plain attribute is accepted on both sides with corresponding results; on a referential
-    attribute it is rejected on both sides (MetaException / Spec error) -/
+    attribute it is rejected on both sides (MetaException / Spec error); on the class's own id attribute with a
+    non-negative integer (the mechanism model keeps ids as naturals) it is accepted on both sides, the mechanism
+    updating `idOf`, and the states correspond again -/
 theorem attr_writes {decl : Nat → List AttrDecl} {at_ : Pyx.Meta.Attrs} {sch : Pyx.Meta.Schema} {d : MDict}
     (hk : Function.Injective kname) (kinds : List Nat)
     (R : RefinesA kname decl at_ sch ι s d st) (A : AllInv sch s) {x : Nat} (hx : Pyx.Meta.live s x)
@@ -401,9 +403,15 @@ theorem attr_writes {decl : Nat → List AttrDecl} {at_ : Pyx.Meta.Attrs} {sch :
         ∃ st' d', setAttr (ctxOfA kname decl kinds sch) (ι x) name v st = .ok st' ∧
           mSet sch at_ s d x name v = some (s, d') ∧ RefinesA kname decl at_ sch ι s d' st') ∧
     (a.referential = true → Pyx.Meta.formalFrom (s.kindOf x) name 0 sch ≠ [] →
-        (∃ e, setAttr (ctxOfA kname decl kinds sch) (ι x) name v st = .error e) ∧ mSet sch at_ s d x name v = none) :=
+        (∃ e, setAttr (ctxOfA kname decl kinds sch) (ι x) name v st = .error e) ∧ mSet sch at_ s d x name v = none) ∧
+    (∀ i : Int, v = .int i → 0 ≤ i → a.referential = false → tyMatches a.ty (.int i) = true →
+        Pyx.Meta.formalFrom (s.kindOf x) name 0 sch = [] → at_.idName (s.kindOf x) = some name →
+        ∃ st', setAttr (ctxOfA kname decl kinds sch) (ι x) name (.int i) st = .ok st' ∧
+          mSet sch at_ s d x name (.int i) = some ({ s with idOf := Pyx.Meta.upd s.idOf x i.toNat }, d) ∧
+          RefinesA kname decl at_ sch ι { s with idOf := Pyx.Meta.upd s.idOf x i.toNat } d st') :=
   ⟨fun hnr hty hpl => write_plain hk kinds R A hx hkin hfa hnr hty hpl,
-   fun hr hform => write_ref hk kinds R A hx hkin v hfa hr hform⟩
+   fun hr hform => write_ref hk kinds R A hx hkin v hfa hr hform,
+   fun i _ hi hnr hty hform hid => write_id hk kinds R A hx hkin hfa hnr hty hform hid hi⟩
 
 /-- `new` with attributes: the same defaults on both sides (id attribute = next id of the equal generators) -/
 theorem attr_new {decl : Nat → List AttrDecl} {at_ : Pyx.Meta.Attrs} {sch : Pyx.Meta.Schema} {d : MDict}
@@ -440,8 +448,9 @@ theorem program_effects (C : Ctx) (fuel : Nat) :
 
 /-- **program execution meets the mechanism**: let the `Spec` state `st` correspond to the mechanism state `(s, d)`
     (`RefinesA`: both initial, or both after any history of the domain).  A program run from `st` that ends normally in
-    `st'` reaches `st'` through a history `es` of successful state operations, and — if `es` assigns no class's own
-    identifying id attribute (outside the refinement's domain, as in `attr_writes`) — there is a history `ops` of
+    `st'` reaches `st'` through a history `es` of successful state operations, and — if the values `es` assigns to a
+    class's own identifying id attribute are non-negative integers (the mechanism model keeps ids as naturals, `attr_writes`)
+    — there is a history `ops` of
     MECHANISM operations (`Meta.new` / `relate` / `unrelate` / `delete`, `setattr`) of the domain after which the
     mechanism state corresponds to `st'`: pools in creation order, both directions of every association in link order,
     attribute values and the id counter of the mechanism are what the program's final `Spec` state says.
@@ -453,7 +462,7 @@ theorem program_refines {decl : Nat → List AttrDecl} {at_ : Pyx.Meta.Attrs} {s
     (fuel : Nat) (body : Block) (kw : List (String × Val)) (v : Val) (st' : State)
     (h : runFunction (ctxOfA kname decl kinds sch) fuel body kw st = some (.ok (v, st'))) :
     ∃ es, applyEffs (ctxOfA kname decl kinds sch) es st = .ok st' ∧
-      ((∀ e ∈ es, NoIdWrite kname at_ e) →
+      ((∀ e ∈ es, IdWritesNonneg kname at_ e) →
         ∃ ops ι', DomA decl at_ sch kinds s d ops ∧
           RefinesA kname decl at_ sch ι' (mRunA decl at_ sch ops s d).1 (mRunA decl at_ sch ops s d).2 st') :=
   Pyx.Interp.program_refines hk kinds hok hD R A hc fuel body kw v st' h
@@ -590,19 +599,19 @@ example : DeclOk declS atS schS 0 ∧ DeclOk declS atS schS 1 := declS_ok
 
 /-- program execution meets the mechanism, non-vacuity: on the context of `schS` / `declS` (classes `K`, `KK`) the program
     `create object instance a of K; create object instance b of KK; create object instance c of KK; relate a to b across R2;
-     a.n = 5; unrelate a from b across R2; relate a to c across R2; delete object instance b; return a.n;`
+     a.n = 5; c.ID = 77; unrelate a from b across R2; relate a to c across R2; delete object instance b; return a.n;`
     run from the initial state ends normally (value 5), so `program_refines` applies with the initial states: its final
-    state is reached through a history of state operations and — the history assigning no id attribute — corresponds to
+    state is reached through a history of state operations and — id attributes being assigned non-negative integers only — corresponds to
     the mechanism state after a history of mechanism operations -/
 def progS : Block := [
   .create (some "a") "K", .create (some "b") "KK", .create (some "c") "KK",
-  .relate "a" "b" "R2" "", .assignField (.var "a") "n" (.int 5),
+  .relate "a" "b" "R2" "", .assignField (.var "a") "n" (.int 5), .assignField (.var "c") "ID" (.int 77),
   .unrelate "a" "b" "R2" "", .relate "a" "c" "R2" "", .delete "b",
   .ret (some (.field (.var "a") "n"))]
 
 example : ∃ st' es, runFunction (ctxOfA knameS declS [0, 1] schS) 12 progS [] initState = some (.ok (.int 5, st')) ∧
     applyEffs (ctxOfA knameS declS [0, 1] schS) es initState = .ok st' ∧
-    ((∀ e ∈ es, NoIdWrite knameS atS e) →
+    ((∀ e ∈ es, IdWritesNonneg knameS atS e) →
       ∃ ops ι', DomA declS atS schS [0, 1] Pyx.Meta.init ⟨fun _ _ => .none⟩ ops ∧
         RefinesA knameS declS atS schS ι' (mRunA declS atS schS ops Pyx.Meta.init ⟨fun _ _ => .none⟩).1
           (mRunA declS atS schS ops Pyx.Meta.init ⟨fun _ _ => .none⟩).2 st') := by
